@@ -5,7 +5,7 @@ from .. import ldmsim
 
 ID = "C13"
 ENGINE = "ldm"
-RUNS = {"quick": 5000, "thorough": 70000}
+RUNS = {"quick": 5000, "thorough": 110000}
 RULE_TEXT = ("one run = one seeded history (8-70 ops) executed side by side on two real LDMs (Dictionary and TinyDB back-end, same "
              "maintenance/service variant, same virtual clock): heterogeneous CAM/VAM/DENM/POI/IVIM stores, requests with type "
              "selections, one- and two-statement filters (8 operators, and/or, reference values of matching and non-matching "
